@@ -390,7 +390,7 @@ type AdvClient struct {
 	// ClientHello, 2 = the client's Finished, ...) the TCP connection is reset
 	// (linger 0 + close), with nothing in between
 	ResetAfterWrites int
-	ServerName string
+	ServerName       string
 }
 
 type AdvResult struct {
